@@ -10,8 +10,8 @@ def P(quick_runs, thorough_runs, level="exploration", quick_budget=40, thorough_
 PROPS = {
     "C06": P(160000, 3000000, expect_reach=["c06.gates_released_after_join_issued"],
              assumptions=["blocked units are released by an external thread only after the join/finalize that has to wait for them was issued; nobody pushes to a pool whose only stream is being joined", "scenario yield_to-race: as for C11"]),
-    "C07": P(300000, 6000000, expect_reach=["pool.pop_gives_up_became_empty", "lin.decided", "pool.empty_pops", "pool.blocking_pop_got_unit"],
-             assumptions=["clients respect the producer/consumer counts of the access mode; ABT_pool_remove is issued only by the sole consumer for a unit whose push has returned (API precondition: the unit is in the pool)",
+    "C07": P(300000, 6000000, expect_reach=["pool.pop_gives_up_became_empty", "pool.removes_refused_unit_gone", "lin.decided", "pool.empty_pops", "pool.blocking_pop_got_unit"],
+             assumptions=["clients respect the producer/consumer counts of the access mode; ABT_pool_remove is issued for a unit whose push has returned: by the sole consumer (it must succeed), or racing with the other consumers' pops (it may be refused, and then the unit was not in the pool at the linearisation point)",
                           "histories <= 48 operations, search capped at 1e6 nodes (undecided histories are counted, never passed or failed)"]),
     "C08": P(160000, 3000000, expect_reach=["c08.lapping_entries"], assumptions=["ABT_barrier_reinit is called only while nobody waits (API precondition)"]),
     "C09": P(160000, 3000000, expect_reach=["c09.future_reset_rounds", "c09.waits_blocked_before_set", "c09.tests_ready"], assumptions=["ABT_eventual_reset is called only at quiescent points (no waiter, no setter in flight)"]),
@@ -24,9 +24,9 @@ PROPS = {
              assumptions=["one driver per unit issues create/cancel/join/revive/free sequentially (cancel races with the target's execution, not with its own join); the cancel deadline is checked at ABT_thread_yield and at a suspend that is resumed through a pool, not for direct hand-over resumes"]),
     "C13": P(160000, 3000000, expect_reach=["migrate.at_pop", "migrate.request_handled", "c13.requests_via_xstream_or_sched", "c13.migrate_any_stream_checked", "c13.requests_checked_must_be_honoured", "c13.requests_overlapping_scheduling_point"],
              assumptions=["per unit, requests come either from the unit itself or from one issuer, so accepted requests are totally ordered; a request overlapping a scheduling point may be honoured at that point or the next"]),
-    "C14": P(160000, 3000000, expect_reach=["unit.tombstone_reused", "c14.translation_queries", "c14.units_created", "c14.handles_recycled"],
+    "C14": P(160000, 3000000, expect_reach=["unit.tombstone_reused", "c14.translation_queries", "c14.units_created", "c14.handles_recycled", "c14.bulk_rounds"],
              assumptions=["unit handles are crafted integers that all hash to one bucket of the 256-entry table, recycled LIFO in half of the runs; translations are queried only for units that cannot move or be freed meanwhile (the caller's own unit, or a suspended ULT)"]),
-    "C15": P(160000, 3000000, expect_reach=["mempool.new_page", "mempool.bucket_from_global_lifo", "c15.mempool_allocs", "c15.mempool_cross_thread_frees", "c15.ext_frees_of_user_stack_ults"],
+    "C15": P(160000, 3000000, expect_reach=["mempool.new_page", "mempool.bucket_from_global_lifo", "c15.mempool_allocs", "c15.mempool_cross_thread_frees", "c15.ext_frees_of_user_stack_ults", "c15.churn_units", "c15.churn_rounds_finished_on_another_stream"],
              assumptions=["the white-box driver uses ABTI_mem_pool_* exactly as abti_mem.h does (one local pool per simulated thread, blocks may be freed to any local pool of the same global pool)",
                           "stack sizes 16 KiB..2 MiB (+50%) in the quick tier, up to 16 MiB in the thorough tier; with stack guards enabled the two lowest pages are not written"]),
     "C16": P(160000, 3000000, expect_reach=["key.chain_append", "key.table_creation_race_lost", "c16.remote_sets_while_owner_runs", "c16.destructor_calls", "c16.revives"],
